@@ -45,18 +45,23 @@ Definition tqr_compute (n : nat) (diag subd : vec) (shift : T o) : tqr :=
   let '(Rd, Rs, Rs2, acc) := tqr_loop n Tsub (n - 1) 0 (Rd, Tsub, repeat (zero o) (n - 2), []) in
   {| T_diag := diag; T_subd := Tsub; R_diag := Rd; R_supd := Rs; R_supd2 := Rs2; rots := rev acc |}.
 
+(* the 2x2 core of one step of matrix_QtHQ: new (D_i, L_i, D_{i+1}) from (x, y, z) = (D_i, L_i, D_{i+1}) *)
+Definition qthq_core (c s x y z : T o) : T o * T o * T o :=
+  let cs := c * s in let c2 := c * c in let s2 := s * s in
+  let c2x := c2 * x in let s2x := s2 * x in let c2z := c2 * z in let s2z := s2 * z in
+  let csy2 := of_Z o 2 * c * s * y in
+  (c2x - csy2 + s2z, cs * (x - z) + (c2 - s2) * y, s2x + csy2 + c2z).
+
 (* matrix_QtHQ: state (diag, sub) of dest *)
 Definition qthq_step (n : nat) (q : tqr) (i : nat) (st : vec * vec) : vec * vec :=
   let '(D, L) := st in
   let c := fst (nth i (rots q) (zero o, zero o)) in
   let s := snd (nth i (rots q) (zero o, zero o)) in
-  let cs := c * s in let c2 := c * c in let s2 := s * s in
   let x := D[i] in let y := L[i] in let z := D[Datatypes.S i] in
-  let c2x := c2 * x in let s2x := s2 * x in let c2z := c2 * z in let s2z := s2 * z in
-  let csy2 := of_Z o 2 * c * s * y in
-  let D := vset o D i (c2x - csy2 + s2z) in
-  let L := vset o L i (cs * (x - z) + (c2 - s2) * y) in
-  let D := vset o D (Datatypes.S i) (s2x + csy2 + c2z) in
+  let '(nd, nl, nd1) := qthq_core c s x y z in
+  let D := vset o D i nd in
+  let L := vset o L i nl in
+  let D := vset o D (Datatypes.S i) nd1 in
   if Nat.ltb i (n - 2) then
     let ci1 := fst (nth (Datatypes.S i) (rots q) (zero o, zero o)) in
     let si1 := snd (nth (Datatypes.S i) (rots q) (zero o, zero o)) in
